@@ -180,13 +180,20 @@ class PopAdapter(Adapter):
         pick = {'gauss2': ['Mean Dim. 2', 'Std. Dim. 1', 'Std. Dim. 2'],
                 'composed': ['Log std. Dim. 1', 'Pooled Dim. 1', 'Mean Dim. 1'],
                 'covariate': ['Std. Dim. 1', 'Mean Dim. 1 Cov. 1', 'Pooled Dim. 1'],
-                'pooled': ['Pooled Dim. 1', 'Pooled Dim. 3', 'Pooled Dim. 4']}[which]
+                'pooled': ['Pooled Dim. 1', 'Pooled Dim. 3', 'Pooled Dim. 4'],
+                'renamed': ['Log std. CL', 'Pooled V', 'Mean ka']}[which]
         self.own = dict(zip('abc', pick))
         rng = np.random.default_rng(11)
         self.covs = np.array([[0.2], [0.7], [0.4]])
         self.w = np.round(rng.uniform(-1, 1, size=(3, self._plain().n_dim())), 3)
 
-    def _plain(self):
+    def _plain(self, rename=True):
+        if self.which == 'renamed':
+            m = chi.ComposedPopulationModel([chi.LogNormalModel(centered=False), chi.PooledModel(), chi.GaussianModel()])
+            if rename:
+                m.set_dim_names(['CL', 'V', 'ka'])
+            m.set_n_ids(3)
+            return m
         if self.which == 'pooled':
             m = chi.PooledModel(n_dim=4)
         elif self.which == 'gauss2':
@@ -216,6 +223,11 @@ class PopAdapter(Adapter):
         return vals
 
     def make(self):
+        if self.which == 'renamed':
+            # the wrapper exists BEFORE the dimensions are renamed: fixing goes by the names reported afterwards
+            m = chi.ReducedPopulationModel(self._plain(rename=False))
+            m.set_dim_names(['CL', 'V', 'ka'])
+            return m
         return chi.ReducedPopulationModel(self._plain())
 
     def plain(self):
@@ -228,6 +240,9 @@ class PopAdapter(Adapter):
             return np.array([np.asarray(full, dtype=float)] * 3)
         if self.which == 'gauss2':
             return np.array([[0.8, 1.3], [1.1, 0.9], [1.4, 1.0]])
+        if self.which == 'renamed':
+            pooled = full[names.index('Pooled V')]
+            return np.array([[0.3, pooled, 0.8], [-0.4, pooled, 1.3], [0.1, pooled, 1.1]])
         pooled = full[names.index('Pooled Dim. 1')] if 'Pooled Dim. 1' in names else full[names.index('Pooled Dim. 2')]
         if self.which == 'composed':
             return np.array([[0.3, pooled, 0.8], [-0.4, pooled, 1.3], [0.1, pooled, 1.1]])
@@ -483,7 +498,7 @@ class LLUserReducedAdapter(PMUserReducedAdapter):
 
 def adapters():
     return [ErrAdapter('G'), ErrAdapter('M'), ErrAdapter('C'), ErrAdapter('L'), MechAdapter(False), MechAdapter(True),
-            PopAdapter('gauss2'), PopAdapter('composed'), PopAdapter('covariate'), PopAdapter('pooled'), LLAdapter(), PMAdapter(),
+            PopAdapter('gauss2'), PopAdapter('composed'), PopAdapter('covariate'), PopAdapter('pooled'), PopAdapter('renamed'), LLAdapter(), PMAdapter(),
             LLAdapter({'a': 'P1', 'b': 'P2', 'c': 'Y2 Sigma base'}), PMAdapter({'a': 'P1', 'b': 'P2', 'c': 'Y1 Sigma'}),
             CtrlAdapter('indiv'), CtrlAdapter('pop'), PPMAdapter(), PMUserReducedAdapter(), LLUserReducedAdapter()]
 
